@@ -6,6 +6,7 @@ mod cerrun;
 mod conc;
 mod ctapcodec;
 mod hid;
+mod jsoncodec;
 mod leaks;
 mod psl;
 mod rp;
@@ -27,6 +28,7 @@ fn main() {
         "conc" => conc::main(&args),
         "ctapcodec" => ctapcodec::main(&args),
         "hid" => hid::main(&args),
+        "jsoncodec" => jsoncodec::main(&args),
         "psl" => psl::main(&args),
         "rpid" => rpid::main(&args),
         "stores" => stores::main(&args),
